@@ -5,6 +5,7 @@ import (
 	"encoding/binary"
 	"fmt"
 	"math/big"
+	"sort"
 	"strings"
 	"time"
 
@@ -17,6 +18,7 @@ import (
 	clmodel "github.com/osmosis-labs/osmosis/v31/x/concentrated-liquidity/model"
 	cltypes "github.com/osmosis-labs/osmosis/v31/x/concentrated-liquidity/types"
 	"github.com/osmosis-labs/osmosis/v31/x/gamm/pool-models/balancer"
+	"github.com/osmosis-labs/osmosis/v31/x/gamm/pool-models/stableswap"
 	pmtypes "github.com/osmosis-labs/osmosis/v31/x/poolmanager/types"
 	"github.com/osmosis-labs/osmosis/v31/x/twap"
 	twaptypes "github.com/osmosis-labs/osmosis/v31/x/twap/types"
@@ -49,22 +51,41 @@ type Config struct {
 	// SameBlockFund: the CL pool receives its first position in the block that creates it (the record
 	// written at creation sees a spot-price error, the end of that block does not)
 	SameBlockFund bool `json:"same_block_fund,omitempty"`
+	// BalExtra: further assets of pool 1 (a pool of k assets has k(k-1)/2 asset pairs, each with its own twap
+	// records; the module walks them in the order of types.GetAllUniqueDenomPairs: denoms sorted, (i,j) with i<j)
+	BalExtra []Asset `json:"bal_extra,omitempty"`
+	// BalObserve: the pairs of pool 1 the harness keeps a reference history for and queries (default: all);
+	// swaps name a pair by its index in this list (Op.Q)
+	BalObserve [][2]string `json:"bal_observe,omitempty"`
+	// BalStable: pool 1 is a stableswap pool (created by MsgCreateStableswapPool, unit scaling factors) instead
+	// of a balancer pool; weights are ignored
+	BalStable bool `json:"bal_stable,omitempty"`
+}
+
+type Asset struct {
+	Denom string `json:"denom"`
+	Amt   int64  `json:"amt"`
+	W     int64  `json:"w"`
 }
 
 // Op is one symbol: an action executed in the current block followed by the block boundary
 // (EndBlocker, +Dt, BeginBlocker). Dt = 0: no boundary (only used inside seeds).
 type Op struct {
-	A  string `json:"a"`           // idle | swap | toggle (drain / refill the CL pool) | prune (prune-epoch hook at the start of the block)
-	P  int    `json:"p,omitempty"` // pool index: 0 balancer, 1 concentrated
-	D  int    `json:"d,omitempty"` // swap direction: 0 = canonical asset0 in, 1 = canonical asset1 in
-	X  int64  `json:"x,omitempty"` // amount in
-	Dt int64  `json:"dt"`          // milliseconds to the next block
+	A  string `json:"a"`            // idle | swap | toggle (drain / refill the CL pool) | prune (prune-epoch hook at the start of the block)
+	P  int    `json:"p,omitempty"`  // pool index: 0 balancer, 1 concentrated
+	Q  int    `json:"q,omitempty"`  // swap: index of the pool's observed asset pair the swap goes along (pools with 3+ assets)
+	D  int    `json:"d,omitempty"`  // swap direction: 0 = canonical asset0 in, 1 = canonical asset1 in
+	X  int64  `json:"x,omitempty"`  // amount in
+	Dt int64  `json:"dt"`           // milliseconds to the next block
 	Ns int64  `json:"ns,omitempty"` // sub-millisecond part (0..999999 ns) of the NEXT block's time: real block times carry nanoseconds; records and queries are canonicalised to whole milliseconds by the module, so the reference works on floor(t/1ms) and the phase must be unobservable
 }
 
 func (o Op) String() string {
 	switch o.A {
 	case "swap":
+		if o.Q != 0 {
+			return fmt.Sprintf("swap(pool%d,pair%d,dir%d,%d)+%dms%s", o.P, o.Q, o.D, o.X, o.Dt, phase(o.Ns))
+		}
 		return fmt.Sprintf("swap(pool%d,dir%d,%d)+%dms%s", o.P, o.D, o.X, o.Dt, phase(o.Ns))
 	}
 	return fmt.Sprintf("%s+%dms%s", o.A, o.Dt, phase(o.Ns))
@@ -90,24 +111,26 @@ type Hist struct {
 // Ledger is the reference state: built only from the harness's own requests and the router's
 // answers; nothing is read back from x/twap.
 type Ledger struct {
-	H       [2]Hist
+	H       []Hist // one history per observed asset pair (World.Pairs)
 	PosID   uint64 // the only CL position (0: pool drained)
 	PosLiq  osmomath.Dec
 	Refills int
 	// L: the newest cut-off (unix ms) of any pruning pass that has started; 0 = none yet. Everything
 	// at or after L is the part of history the module has promised to keep answering.
 	L          int64
-	DayStart   int64 // start of the running "day" epoch (the module's real prune trigger)
-	PassDel    int   // records deleted so far by the running pass
-	PassBlocks int   // blocks of the running pass that deleted something
-	Touch      [2]bool
+	DayStart   int64  // start of the running "day" epoch (the module's real prune trigger)
+	PassDel    int    // records deleted so far by the running pass
+	PassBlocks int    // blocks of the running pass that deleted something
+	Touch      []bool // per pool
 }
 
 func (l *Ledger) Clone() *Ledger {
 	n := *l
+	n.H = make([]Hist, len(l.H))
 	for i := range l.H {
 		n.H[i].Segs = append([]Seg{}, l.H[i].Segs...)
 	}
+	n.Touch = append([]bool{}, l.Touch...)
 	return &n
 }
 
@@ -143,16 +166,34 @@ func (l *Ledger) digest() []byte {
 
 type PoolInfo struct {
 	ID     uint64
-	A0, A1 string // canonical (lexicographic) order, as x/twap keys its records
 	Kind   string
+	Denoms []string // sorted
+	NPairs int      // all asset pairs of the pool, observed or not: k(k-1)/2 record series in x/twap
+	Pairs  []int    // indices into World.Pairs of the observed pairs, in the module's order
+}
+
+// PairInfo is one observed asset pair: the unit the statement quantifies over ("every pool and asset pair").
+type PairInfo struct {
+	Pool   int
+	A0, A1 string // canonical (lexicographic) order, as x/twap keys its records
+	Ord    int    // position of the pair in the module's iteration order over the pool's pairs (0 = first)
+	Label  string // stable name used in signatures and counters: the pool kind for two-asset pools
 }
 
 type World struct {
 	Env   *core.Env
 	App   *app.OsmosisApp
 	Cfg   Config
-	Pools [2]PoolInfo
+	Pools []PoolInfo // 0: balancer / stableswap (pool id 1), 1: concentrated (pool id 2)
+	Pairs []PairInfo
 	R     *core.Result
+}
+
+func (w *World) pid(pi int) uint64 { return w.Pools[w.Pairs[pi].Pool].ID }
+
+// multi: the pair belongs to a pool with more than one pair and is not the first one the module visits
+func (w *World) nonFirstOfMulti(pi int) bool {
+	return w.Pools[w.Pairs[pi].Pool].NPairs > 1 && w.Pairs[pi].Ord > 0
 }
 
 const pruneEpoch = "day"
@@ -194,7 +235,11 @@ func mustUnmarshal(res *sdk.Result, m proto.Message) {
 // the first position of the CL pool - is done by operations of the alphabet (seed "init" applies
 // the first toggle).
 func NewWorld(cfg Config, r *core.Result) (*World, sdk.Context, *Ledger) {
-	fund := core.Coins(cfg.BalDenomA, "1000000000000000000", cfg.BalDenomB, "1000000000000000000", "uosmo", "100000000000")
+	assets := append([]Asset{{cfg.BalDenomA, cfg.BalAmtA, cfg.BalWA}, {cfg.BalDenomB, cfg.BalAmtB, cfg.BalWB}}, cfg.BalExtra...)
+	fund := core.Coins("uosmo", "100000000000")
+	for _, as := range assets {
+		fund = fund.Add(core.Coins(as.Denom, "1000000000000000000")...)
+	}
 	fund = fund.Add(core.Coins(cfg.CLToken0, "1000000000000000000", cfg.CLToken1, "1000000000000000000")...)
 	env := core.NewEnv(core.GenesisOpts{Balances: map[string]sdk.Coins{"A": fund, "T": fund}})
 	a, ctx := env.App, env.Ctx
@@ -209,17 +254,39 @@ func NewWorld(cfg Config, r *core.Result) (*World, sdk.Context, *Ledger) {
 	a.TwapKeeper.SetParams(ctx, twaptypes.NewParams(pruneEpoch, time.Duration(cfg.KeepMs)*time.Millisecond))
 	twap.NumRecordsToPrunePerBlock = uint16(cfg.PruneLimit)
 
-	bm := &balancer.MsgCreateBalancerPool{Sender: core.Acc("A").String(),
-		PoolParams: &balancer.PoolParams{SwapFee: osmomath.MustNewDecFromStr(cfg.BalFee), ExitFee: osmomath.ZeroDec()},
-		PoolAssets: []balancer.PoolAsset{
-			{Token: sdk.NewCoin(cfg.BalDenomA, sdkInt(cfg.BalAmtA)), Weight: sdkInt(cfg.BalWA)},
-			{Token: sdk.NewCoin(cfg.BalDenomB, sdkInt(cfg.BalAmtB)), Weight: sdkInt(cfg.BalWB)}}}
-	rb := core.Deliver(a, ctx, bm)
-	if !rb.OK() {
-		panic(fmt.Sprintf("harness: balancer pool creation failed: %v", rb.Err))
+	var balID uint64
+	balKind := "balancer"
+	if cfg.BalStable {
+		balKind = "stableswap"
+		liq := sdk.NewCoins()
+		sf := make([]uint64, len(assets))
+		for i, as := range assets {
+			liq = liq.Add(sdk.NewCoin(as.Denom, sdkInt(as.Amt)))
+			sf[i] = 1
+		}
+		sm := stableswap.NewMsgCreateStableswapPool(core.Acc("A"),
+			stableswap.PoolParams{SwapFee: osmomath.MustNewDecFromStr(cfg.BalFee), ExitFee: osmomath.ZeroDec()}, liq, sf, "")
+		rs := core.Deliver(a, ctx, &sm)
+		if !rs.OK() {
+			panic(fmt.Sprintf("harness: stableswap pool creation failed: %v", rs.Err))
+		}
+		var sresp stableswap.MsgCreateStableswapPoolResponse
+		mustUnmarshal(rs.Res, &sresp)
+		balID = sresp.PoolID
+	} else {
+		bm := &balancer.MsgCreateBalancerPool{Sender: core.Acc("A").String(),
+			PoolParams: &balancer.PoolParams{SwapFee: osmomath.MustNewDecFromStr(cfg.BalFee), ExitFee: osmomath.ZeroDec()}}
+		for _, as := range assets {
+			bm.PoolAssets = append(bm.PoolAssets, balancer.PoolAsset{Token: sdk.NewCoin(as.Denom, sdkInt(as.Amt)), Weight: sdkInt(as.W)})
+		}
+		rb := core.Deliver(a, ctx, bm)
+		if !rb.OK() {
+			panic(fmt.Sprintf("harness: balancer pool creation failed: %v", rb.Err))
+		}
+		var bresp balancer.MsgCreateBalancerPoolResponse
+		mustUnmarshal(rb.Res, &bresp)
+		balID = bresp.PoolID
 	}
-	var bresp balancer.MsgCreateBalancerPoolResponse
-	mustUnmarshal(rb.Res, &bresp)
 	cm := clmodel.NewMsgCreateConcentratedPool(core.Acc("A"), cfg.CLToken0, cfg.CLToken1, cfg.CLTickSp, osmomath.MustNewDecFromStr(cfg.CLSpread))
 	rc := core.Deliver(a, ctx, &cm)
 	if !rc.OK() {
@@ -227,16 +294,55 @@ func NewWorld(cfg Config, r *core.Result) (*World, sdk.Context, *Ledger) {
 	}
 	var cresp clmodel.MsgCreateConcentratedPoolResponse
 	mustUnmarshal(rc.Res, &cresp)
-	b0, b1 := order(cfg.BalDenomA, cfg.BalDenomB)
+
+	// pool 0: every asset pair in the order x/twap walks them (types.GetAllUniqueDenomPairs: denoms sorted
+	// ascending, (i,j) for i<j, j inner) - written down here independently of the module
+	denoms := make([]string, len(assets))
+	for i, as := range assets {
+		denoms[i] = as.Denom
+	}
+	sort.Strings(denoms)
+	bp := PoolInfo{ID: balID, Kind: balKind, Denoms: denoms, NPairs: len(denoms) * (len(denoms) - 1) / 2}
+	observed := func(a0, a1 string) bool {
+		if len(cfg.BalObserve) == 0 {
+			return true
+		}
+		for _, o := range cfg.BalObserve {
+			o0, o1 := order(o[0], o[1])
+			if o0 == a0 && o1 == a1 {
+				return true
+			}
+		}
+		return false
+	}
+	ord := 0
+	for i := 0; i < len(denoms); i++ {
+		for j := i + 1; j < len(denoms); j++ {
+			if observed(denoms[i], denoms[j]) {
+				label := balKind
+				if bp.NPairs > 1 {
+					label = fmt.Sprintf("%s%d.pair%d", balKind, len(denoms), ord)
+				}
+				bp.Pairs = append(bp.Pairs, len(w.Pairs))
+				w.Pairs = append(w.Pairs, PairInfo{Pool: 0, A0: denoms[i], A1: denoms[j], Ord: ord, Label: label})
+			}
+			ord++
+		}
+	}
+	if len(cfg.BalObserve) != 0 && len(bp.Pairs) != len(cfg.BalObserve) {
+		panic("harness: an observed pair is not a pair of pool 1")
+	}
 	c0, c1 := order(cfg.CLToken0, cfg.CLToken1)
-	w.Pools = [2]PoolInfo{{ID: bresp.PoolID, A0: b0, A1: b1, Kind: "balancer"}, {ID: cresp.PoolID, A0: c0, A1: c1, Kind: "concentrated"}}
+	cp := PoolInfo{ID: cresp.PoolID, Kind: "concentrated", Denoms: []string{c0, c1}, NPairs: 1, Pairs: []int{len(w.Pairs)}}
+	w.Pairs = append(w.Pairs, PairInfo{Pool: 1, A0: c0, A1: c1, Ord: 0, Label: "concentrated"})
+	w.Pools = []PoolInfo{bp, cp}
 	if w.Pools[0].ID != 1 || w.Pools[1].ID != 2 {
 		panic("harness: unexpected pool ids")
 	}
 
 	work, _ := ctx.CacheContext()
-	l := &Ledger{DayStart: ms(core.GenesisTime), PosLiq: osmomath.ZeroDec()}
-	l.Touch = [2]bool{true, true} // creation
+	l := &Ledger{DayStart: ms(core.GenesisTime), PosLiq: osmomath.ZeroDec(), H: make([]Hist, len(w.Pairs))}
+	l.Touch = []bool{true, true} // creation
 	if cfg.SameBlockFund {
 		if _, out := w.Apply(work, l, Op{A: "toggle"}, func(a, s, d string) { panic("harness: setup: " + a + ": " + d) }); out != "ok" {
 			panic("harness: setup: first position refused: " + out)
@@ -248,12 +354,13 @@ func NewWorld(cfg Config, r *core.Result) (*World, sdk.Context, *Ledger) {
 
 // spot asks the router for both orders, exactly as getSpotPrices does.
 func (w *World) spot(ctx sdk.Context, pi int) (p [2]*big.Int, errd bool) {
-	pool := w.Pools[pi]
+	pool := w.Pairs[pi]
+	id := w.pid(pi)
 	q := func(quote, base string) *big.Int {
 		var v osmomath.BigDec
 		var err error
 		perr := core.Try(func() error {
-			v, err = w.App.PoolManagerKeeper.RouteCalculateSpotPrice(ctx, pool.ID, quote, base)
+			v, err = w.App.PoolManagerKeeper.RouteCalculateSpotPrice(ctx, id, quote, base)
 			return nil
 		})
 		if perr != nil || err != nil {
@@ -264,7 +371,7 @@ func (w *World) spot(ctx sdk.Context, pi int) (p [2]*big.Int, errd bool) {
 		q, r := new(big.Int).QuoRem(bi, ten18, new(big.Int))
 		if r.Sign() != 0 {
 			// see Seg: the ledger relies on the router's prices being multiples of 1e-18
-			panic(fmt.Sprintf("harness: router price %s of pool %d has more than 18 decimals", v, pool.ID))
+			panic(fmt.Sprintf("harness: router price %s of pool %d has more than 18 decimals", v, id))
 		}
 		return q
 	}
@@ -292,7 +399,15 @@ func (w *World) countRecords(ctx sdk.Context) int {
 func (w *World) boundary(ctx sdk.Context, l *Ledger, dt, ns int64, fail func(a, s, d string)) sdk.Context {
 	now := ms(ctx.BlockTime())
 	written := 0
-	for pi := range w.Pools {
+	for qi, pool := range w.Pools {
+		if l.Touch[qi] && len(l.H[pool.Pairs[0]].Segs) > 0 {
+			// a touched pool gets one new historical record for EVERY one of its asset pairs, observed or not
+			// (the creation block rewrites the creation records)
+			written += pool.NPairs
+		}
+	}
+	for pi := range w.Pairs {
+		touched := l.Touch[w.Pairs[pi].Pool]
 		p, e := w.spot(ctx, pi)
 		h := &l.H[pi]
 		changed := len(h.Segs) == 0
@@ -300,18 +415,21 @@ func (w *World) boundary(ctx sdk.Context, l *Ledger, dt, ns int64, fail func(a, 
 			last := h.Segs[len(h.Segs)-1]
 			changed = last.Err != e || last.P[0].Cmp(p[0]) != 0 || last.P[1].Cmp(p[1]) != 0
 		}
-		if l.Touch[pi] && len(h.Segs) > 0 {
-			written++ // a touched pool gets one new historical record (the creation block rewrites the creation record)
+		if touched && !changed && w.Pools[w.Pairs[pi].Pool].NPairs > 1 {
+			// e.g. four assets, swap along bar/foo: baz/qux gets a new record with the old prices
+			w.R.Vacuity["multi_asset_pool_record_written_for_pair_with_unchanged_price"]++
 		}
-		if changed || l.Touch[pi] {
+		if changed || touched {
 			if n := len(h.Segs); n > 0 && h.Segs[n-1].T == now {
 				h.Segs[n-1] = Seg{T: now, P: p, Err: e, Touched: true}
 			} else {
-				h.Segs = append(h.Segs, Seg{T: now, P: p, Err: e, Touched: l.Touch[pi]})
+				h.Segs = append(h.Segs, Seg{T: now, P: p, Err: e, Touched: touched})
 			}
 		}
 	}
-	l.Touch = [2]bool{}
+	for qi := range l.Touch {
+		l.Touch[qi] = false
+	}
 	before := w.countRecords(ctx)
 	stBefore := w.App.TwapKeeper.GetPruningState(ctx)
 	// the next block time is (floor(now/1ms) + dt) ms + ns: the canonical millisecond advances by exactly dt
@@ -341,6 +459,11 @@ func (w *World) boundary(ctx sdk.Context, l *Ledger, dt, ns int64, fail func(a, 
 			if l.PassBlocks >= 2 {
 				w.R.Vacuity["prune_resumed_in_later_block_and_deleted"]++
 			}
+			// a pass always starts at the highest pool id (2): LastSeenPoolId == 1 during a step means an earlier step
+			// hit the per-block limit inside pool 1, whose pairs are re-walked from the first one
+			if w.Pools[0].NPairs > 1 && stMid.LastSeenPoolId == w.Pools[0].ID {
+				w.R.Vacuity["prune_resumed_inside_multi_asset_pool_and_deleted"]++
+			}
 		}
 	} else if deleted != 0 {
 		// not an assertion of the property (answers are what counts); kept visible in the evidence
@@ -352,9 +475,21 @@ func (w *World) boundary(ctx sdk.Context, l *Ledger, dt, ns int64, fail func(a, 
 		l.DayStart += dayMs
 		l.startPass(nowNew - w.Cfg.KeepMs)
 		w.R.Vacuity["prune_started_by_real_epoch"]++
+		if w.Pools[0].NPairs > 1 {
+			w.R.Vacuity["prune_started_by_real_epoch_with_multi_asset_pool"]++
+		}
 	}
 	st := w.App.TwapKeeper.GetPruningState(ctx)
+	if stMid.IsPruning && st.IsPruning && deleted > 0 && w.Pools[0].NPairs > 1 && st.LastSeenPoolId == w.Pools[0].ID {
+		w.R.Vacuity["prune_limit_hit_inside_multi_asset_pool"]++
+	}
 	if stMid.IsPruning && !st.IsPruning {
+		if w.Pools[0].NPairs > 1 {
+			w.R.Vacuity["prune_pass_completed_with_multi_asset_pool"]++
+			if l.PassBlocks >= 2 {
+				w.R.Vacuity["prune_pass_completed_after_resume_with_multi_asset_pool"]++
+			}
+		}
 		w.R.Vacuity["prune_pass_completed"]++
 		if l.PassBlocks >= 2 {
 			w.R.Vacuity["prune_pass_completed_after_resume"]++
@@ -423,9 +558,13 @@ func (w *World) Apply(ctx sdk.Context, l *Ledger, op Op, fail func(a, s, d strin
 		w.R.Vacuity["prune_started_by_hook"]++
 	case "swap":
 		pool := w.Pools[op.P]
-		in, outD := pool.A0, pool.A1
+		if op.Q < 0 || op.Q >= len(pool.Pairs) {
+			panic(fmt.Sprintf("harness: op %s names pair %d of a pool with %d observed pairs", op, op.Q, len(pool.Pairs)))
+		}
+		pair := w.Pairs[pool.Pairs[op.Q]]
+		in, outD := pair.A0, pair.A1
 		if op.D == 1 {
-			in, outD = pool.A1, pool.A0
+			in, outD = pair.A1, pair.A0
 		}
 		r := core.Deliver(a, ctx, &pmtypes.MsgSwapExactAmountIn{Sender: core.Acc("T").String(),
 			Routes:  []pmtypes.SwapAmountInRoute{{PoolId: pool.ID, TokenOutDenom: outD}},
@@ -483,7 +622,7 @@ func (w *World) midBlock(ctx sdk.Context, l *Ledger) string {
 	var b strings.Builder
 	c, _ := ctx.CacheContext()
 	now := ms(ctx.BlockTime())
-	for pi := range w.Pools {
+	for pi := range w.Pairs {
 		for _, sg := range l.H[pi].Segs {
 			for gi := 0; gi < 2; gi++ {
 				for d := 0; d < 2; d++ {
